@@ -9,6 +9,37 @@
 
 namespace bigtiff {
 
+// What the reader reads from: a byte vector, or a (possibly sparse, > 4 GiB)
+// file of the simulated file layer.
+struct Bytes
+{
+    virtual ~Bytes() {}
+    virtual uint64_t size() const = 0;
+    // bytes beyond the end read as zero (callers check bounds first)
+    virtual void read(uint64_t off, uint64_t n, uint8_t* out) const = 0;
+    uint8_t at(uint64_t o) const
+    {
+        uint8_t b = 0;
+        read(o, 1, &b);
+        return b;
+    }
+};
+
+struct VecBytes : Bytes
+{
+    const std::vector<uint8_t>& v;
+    explicit VecBytes(const std::vector<uint8_t>& v_)
+      : v(v_)
+    {
+    }
+    uint64_t size() const override { return v.size(); }
+    void read(uint64_t off, uint64_t n, uint8_t* out) const override
+    {
+        for (uint64_t i = 0; i < n; ++i)
+            out[i] = off + i < v.size() ? v[(size_t)(off + i)] : 0;
+    }
+};
+
 struct Entry
 {
     uint16_t tag;
@@ -28,8 +59,12 @@ struct Ifd
     std::vector<Entry> entries;
     const Entry* find(uint16_t tag) const;
     // scalar value of a SHORT/LONG/LONG8 entry with count 1
+    bool scalar(uint16_t tag, const Bytes& file, uint64_t* out) const;
     bool scalar(uint16_t tag, const std::vector<uint8_t>& file,
-                uint64_t* out) const;
+                uint64_t* out) const
+    {
+        return scalar(tag, VecBytes(file), out);
+    }
 };
 
 struct File
@@ -40,11 +75,21 @@ struct File
 
 // Parses; on any structural violation sets error and stops.
 File
-parse(const std::vector<uint8_t>& bytes);
+parse(const Bytes& bytes);
+inline File
+parse(const std::vector<uint8_t>& bytes)
+{
+    return parse(VecBytes(bytes));
+}
 
 // ASCII value of an entry (without the trailing NUL)
 std::string
-ascii(const Entry& e, const std::vector<uint8_t>& bytes);
+ascii(const Entry& e, const Bytes& bytes);
+inline std::string
+ascii(const Entry& e, const std::vector<uint8_t>& bytes)
+{
+    return ascii(e, VecBytes(bytes));
+}
 
 // ---------------------------------------------------------------- mini JSON
 struct Json
